@@ -67,7 +67,9 @@ where
                     if stop.load(Ordering::Relaxed) {
                         return Ok(());
                     }
+                    crate::world::set_guard(true);
                     let r = catch_unwind(AssertUnwindSafe(|| run(&v)));
+                    crate::world::set_guard(false);
                     let mut a = acc2.borrow_mut();
                     let counting = !a.3;
                     if counting {
